@@ -18,6 +18,7 @@ import (
 
 	"github.com/tokenized/pkg/bitcoin"
 	"github.com/tokenized/pkg/wire"
+	"github.com/tokenized/spynode/internal/spynode"
 )
 
 func init() { register("converge", runConverge) }
@@ -39,6 +40,10 @@ type convWorld struct {
 	start   int64
 	parents map[int64]int64
 	m       int
+
+	bg   bool                      // cfg bgblocks: blocks are processed by the REAL processBlocks goroutine
+	bt   *spynode.VerifBlockThread // ... while it is held between its pop and ProcessBlock
+	dead bool                      // ... it has ended on its own on this connection
 
 	best  []int64
 	sh    bool
@@ -122,7 +127,7 @@ func (w *convWorld) missing(chain []int64) int64 {
 }
 
 func (w *convWorld) pinfo(chain []int64) []int64 {
-	p := []int64{w.missing(chain), b2i(w.sh), int64(len(w.best))}
+	p := []int64{w.missing(chain), b2i(w.sh), b2i(w.threadAlive()), int64(len(w.best))}
 	p = append(p, w.best...)
 	p = append(p, int64(len(w.chanl)), int64(len(w.reqs)))
 	for _, m := range w.chanl {
@@ -146,6 +151,68 @@ func (w *convWorld) pinfo(chain []int64) []int64 {
 		}
 	}
 	return p
+}
+
+// threadAlive: the block processing thread of the current connection has not ended on its own (always
+// true when the harness processes blocks itself)
+func (w *convWorld) threadAlive() bool { return !w.dead }
+
+// newConnection: Run starts a new processBlocks goroutine for every connection
+func (w *convWorld) newConnection() {
+	if w.bt != nil { // a held thread of the old connection ends with it
+		w.bt.Finish()
+		w.bt = nil
+	}
+	w.dead = false
+}
+
+// bgProcess: the real block thread gets its turn and runs until it is idle.  Payload: announced
+// (height, id) pairs, then the getdata messages it queued (one per processed block that let more blocks
+// be requested).
+func (w *convWorld) bgProcess() (int64, []int64) {
+	f := w.f
+	if !w.dead {
+		bt := w.bt
+		w.bt = nil
+		if bt == nil {
+			bt, _ = f.node.VerifStartBlockThread(f.ctx, false)
+		}
+		if bt.Finish() {
+			w.dead = true
+		}
+	}
+	var ann []int64
+	for _, e := range f.rec.take() {
+		if e.kind == 3 {
+			ann = append(ann, e.h, w.bu.HeaderID(e.hdr))
+		}
+	}
+	o := append([]int64{int64(len(ann) / 2)}, ann...)
+	var gds [][]int64
+	for _, m := range f.drainOutgoing() {
+		ids := w.getdataIDs([]wire.Message{m})
+		if len(ids) > 0 {
+			gds = append(gds, ids)
+			w.reqs = append(w.reqs, creq{kind: 2, ids: ids})
+		}
+	}
+	o = append(o, int64(len(gds)))
+	for _, ids := range gds {
+		o = append(o, int64(len(ids)))
+		o = append(o, ids...)
+	}
+	return OK, o
+}
+
+// bgHold: the block thread pops the delivered block at the head of the queue and is held before the
+// parent check of ProcessBlock
+func (w *convWorld) bgHold() bool {
+	if w.dead || w.bt != nil {
+		return false
+	}
+	bt, popped := w.f.node.VerifStartBlockThread(w.f.ctx, true)
+	w.bt = bt
+	return popped
 }
 
 func (w *convWorld) frame(code int64, payload []int64) Obs {
@@ -317,6 +384,7 @@ func (w *convWorld) nodeAdvance(dt int64) {
 func (w *convWorld) nodeTimeouts() (int64, []int64) {
 	st := w.f.node.VerifState()
 	if err := st.CheckTimeouts(); err != nil {
+		w.newConnection()
 		st.Reset()
 		st.MarkConnected()
 		w.connReset()
@@ -327,6 +395,7 @@ func (w *convWorld) nodeTimeouts() (int64, []int64) {
 
 func (w *convWorld) nodeDisconnect() {
 	st := w.f.node.VerifState()
+	w.newConnection()
 	st.Reset()
 	st.MarkConnected()
 	w.connReset()
@@ -334,6 +403,7 @@ func (w *convWorld) nodeDisconnect() {
 
 func (w *convWorld) nodeRestart() int64 {
 	f := w.f
+	w.newConnection()
 	f.node.VerifBlocks().Save(f.ctx)
 	f.node.VerifTxs().Save(f.ctx)
 	code := int64(OK)
@@ -495,7 +565,14 @@ func (w *convWorld) settle1() (int64, int64, int64) {
 		return 2, -1, -1
 	}
 	if st.VerifHeadReady() {
-		w.nodeProcess()
+		if w.bg {
+			if !w.threadAlive() {
+				return 0, -1, -1 // delivered blocks that nobody will ever process: no step possible
+			}
+			w.bgProcess()
+		} else {
+			w.nodeProcess()
+		}
 		return 3, -1, -1
 	}
 	if w.checkEnabled() {
@@ -514,6 +591,7 @@ func (w *convWorld) settle1() (int64, int64, int64) {
 	dt := int64(convBT + 1)
 	w.nodeAdvance(dt)
 	if err := st.CheckTimeouts(); err != nil {
+		w.newConnection()
 		st.Reset()
 		st.MarkConnected()
 		w.connReset()
@@ -571,7 +649,8 @@ func runConverge(c *Case) ([]Obs, any) {
 	f := newFlowNode(store, bu, tu, 2000, start)
 	f.node.VerifState().MarkConnected()
 	w := &convWorld{f: f, bu: bu, su: su, start: start, parents: parents, m: int(cfgInt(c, "m", 2000)),
-		best: []int64{0}, chanl: []cmsg{{kind: 1}}}
+		best: []int64{0}, chanl: []cmsg{{kind: 1}}, bg: cfgInt(c, "bgblocks", 0) != 0}
+	defer w.newConnection()
 
 	var result []Obs
 	for _, raw := range c.Ops {
@@ -588,7 +667,24 @@ func runConverge(c *Case) ([]Obs, any) {
 				w.peerAnswer(op.Int(0))
 				return w.frame(OK, nil)
 			case "process":
+				if w.bg {
+					code, p := w.bgProcess()
+					return w.frame(code, p)
+				}
 				code, p := w.nodeProcess()
+				return w.frame(code, p)
+			case "process_hold":
+				// the block thread pops the delivered block at the head of the queue and is held before the
+				// parent check of ProcessBlock (payload: was a block popped)
+				if !w.bg {
+					panic(harnessErr("process_hold needs cfg bgblocks"))
+				}
+				return w.frame(OK, []int64{b2i(w.bgHold())})
+			case "process_release":
+				if !w.bg {
+					panic(harnessErr("process_release needs cfg bgblocks"))
+				}
+				code, p := w.bgProcess()
 				return w.frame(code, p)
 			case "check":
 				code, p, _ := w.nodeCheck()
